@@ -68,6 +68,15 @@ int main(int argc, char** argv) {
             return;
         }
         auto want = [&](const char* n) { return only.empty() || only == n; };
+        // encoder reuse: the same sequence pushed once more by the same encoder object after reset(new sink) is judged like any other output
+        // (only for sequences whose declared lengths are right: after a refused sequence nothing is promised about the object)
+        const bool reuse = c["right"].as_bool();
+        if (reuse && want("cbor")) one(idx, c, "cbor", [&](std::vector<uint8_t>& o) { std::vector<uint8_t> first; cbor::cbor_bytes_encoder e(first); push(e, c["ev"]); e.reset(o); push(e, c["ev"]); });
+        if (reuse && want("msgpack")) one(idx, c, "msgpack", [&](std::vector<uint8_t>& o) { std::vector<uint8_t> first; msgpack::msgpack_bytes_encoder e(first); push(e, c["ev"]); e.reset(o); push(e, c["ev"]); });
+        if (reuse && want("ubjson")) one(idx, c, "ubjson", [&](std::vector<uint8_t>& o) { std::vector<uint8_t> first; ubjson::ubjson_bytes_encoder e(first); push(e, c["ev"]); e.reset(o); push(e, c["ev"]); });
+        if (reuse && want("bson")) one(idx, c, "bson", [&](std::vector<uint8_t>& o) { std::vector<uint8_t> first; bson::bson_bytes_encoder e(first); push(e, c["ev"]); e.reset(o); push(e, c["ev"]); });
+        if (reuse && want("json")) one(idx, c, "json", [&](std::vector<uint8_t>& o) { std::string first, s; compact_json_string_encoder e(first); push(e, c["ev"]); e.reset(s); push(e, c["ev"]); o.assign(s.begin(), s.end()); });
+        if (reuse && want("jsonpretty")) one(idx, c, "jsonpretty", [&](std::vector<uint8_t>& o) { std::string first, s; json_string_encoder e(first); push(e, c["ev"]); e.reset(s); push(e, c["ev"]); o.assign(s.begin(), s.end()); });
         if (want("cbor")) one(idx, c, "cbor", [&](std::vector<uint8_t>& o) { cbor::cbor_bytes_encoder e(o); push(e, c["ev"]); });
         if (want("msgpack")) one(idx, c, "msgpack", [&](std::vector<uint8_t>& o) { msgpack::msgpack_bytes_encoder e(o); push(e, c["ev"]); });
         if (want("ubjson")) one(idx, c, "ubjson", [&](std::vector<uint8_t>& o) { ubjson::ubjson_bytes_encoder e(o); push(e, c["ev"]); });
